@@ -10,7 +10,6 @@
 package main
 
 import (
-	"bytes"
 	"context"
 	"crypto/sha1"
 	"encoding/hex"
@@ -467,7 +466,8 @@ func (m *model) Enabled(int) bool    { return true }
 
 func (m *model) Key() string {
 	if os.Getenv("C18_RAWKEY") != "" {
-		return fmt.Sprint(served(m.s).snap(), m.rule(), m.modeManager())
+		_, p := m.st.Get(m.cfgKey)
+		return fmt.Sprint(served(m.s).snap(), m.rule(), m.modeManager(), p)
 	}
 	h := sha1.New()
 	for _, s := range served(m.s).snap() {
@@ -477,6 +477,9 @@ func (m *model) Key() string {
 	h.Write([]byte(m.rule()))
 	h.Write([]byte{0})
 	h.Write([]byte(m.modeManager()))
+	if _, persisted := m.st.Get(m.cfgKey); persisted {
+		h.Write([]byte{1})
+	}
 	return hex.EncodeToString(h.Sum(nil))
 }
 
@@ -659,11 +662,17 @@ func (m *model) Apply(i int) *hist.Violation {
 	if rerr := fresh.Reload(m.s.GetStorage()); rerr != nil {
 		return bad("reload-error-"+o.setter, "a fresh PersistOptions cannot reload: %v", rerr)
 	}
+	// Each section must be reloaded as served, or as served with the documented normalisation.
 	got, want := ofOptions(fresh).snap(), reloadNormalised(after)
 	if _, ok := m.st.Get(m.cfgKey); !ok {
 		// nothing was ever persisted: the new leader keeps the configuration it was started
 		// with (the same file as the old leader's), which must still be what is served
 		want = as
+	}
+	for s := 0; s < nSec; s++ {
+		if got[s] == as[s] {
+			want[s] = as[s]
+		}
 	}
 	if got != want {
 		key := "reload-differs-after-accepted-" + o.setter
@@ -929,10 +938,14 @@ func newModel(full bool) *model {
 		M("dr-auto", func(c *mc) { c.ReplicationMode = "dr-auto" })
 		M("sync", dr("sync", "zone"))
 	}
+	if os.Getenv("C18_LISTOPS") != "" {
+		for i := range m.ops {
+			fmt.Fprintf(os.Stderr, "%d\t%s\n", i, m.OpName(i))
+		}
+		os.Exit(0)
+	}
 	return m
 }
-
-var _ = bytes.Equal
 
 func main() {
 	defer srvh.Cleanup()
@@ -943,7 +956,7 @@ func main() {
 			{Name: "setters@4", Tiers: "thorough", Depth: 4, NewModel: func() hist.Model { return newModel(true) }},
 			{Name: "setters/core@5", Tiers: "thorough", Depth: 5, NewModel: func() hist.Model { return newModel(false) }},
 		},
-		Rule: "breadth-first over all sequences of the eight configuration setters of the real Server (values: valid ones, every domain boundary of the statement, deprecated flags) x storage fault (none / k-th write of the call fails / storage down from the k-th write on); states deduplicated by the served configuration + default placement rule + mode manager; after every call: out-of-domain never accepted, rejected => every Get*Config and the default rule byte-identical, accepted => requested section served and no other section moved, and a fresh PersistOptions.Reload from the same storage equals the served configuration modulo the documented normalisation",
+		Rule: "breadth-first over all sequences of the eight configuration setters of the real Server (values: valid ones, every domain boundary of the statement, deprecated flags) x storage fault (none / k-th write of the call fails / storage down from the k-th write on); states deduplicated by the served configuration + default placement rule + mode manager + whether a configuration was ever persisted; after every call: out-of-domain never accepted, rejected => every Get*Config and the default rule byte-identical, accepted => requested section served and no other section moved, and a fresh PersistOptions.Reload from the same storage equals the served configuration modulo the documented normalisation",
 		Assumptions: []string{
 			"real Server composed by the verif hooks on the fake etcd, leader, bootstrapped cluster (rule manager and replication mode manager running); reused across histories, Reset restores the options, the stored configuration, the default rule and the mode manager",
 			"storage failures are injected at kv.Base of the server's storage (Save/Remove of the calling goroutine)",
